@@ -23,6 +23,11 @@ import (
 	"github.com/dolthub/go-mysql-server/memory"
 	"github.com/dolthub/go-mysql-server/sql"
 	"github.com/dolthub/go-mysql-server/sql/analyzer"
+	"github.com/dolthub/go-mysql-server/sql/analyzer/analyzererrors"
+	"github.com/dolthub/go-mysql-server/sql/expression"
+	"github.com/dolthub/go-mysql-server/sql/types"
+	"github.com/dolthub/go-mysql-server/sql/planbuilder"
+	"github.com/dolthub/go-mysql-server/sql/transform"
 	"github.com/dolthub/go-mysql-server/sql/mysql_db"
 	"github.com/dolthub/go-mysql-server/sql/plan"
 
@@ -243,6 +248,266 @@ func (t *treeT) shape() string {
 		sb.WriteString(")")
 	}
 	return sb.String()
+}
+
+// ---------- the two analyzer validators: recorded invocations ----------
+
+// vtT is the tree transform.InspectWithOpaque walks (Coq: Plan.C42Validators.vt).
+type vtT struct {
+	Kind string
+	Temp bool
+	RO   int
+	Dest []*vtT
+	Kids []*vtT
+}
+
+func roClass(db sql.Database) int {
+	ro, ok := db.(sql.ReadOnlyDatabase)
+	if !ok {
+		return 0
+	}
+	if ro.IsReadOnly() {
+		return 2
+	}
+	return 1
+}
+
+func vKind(n sql.Node) string {
+	t := reflect.TypeOf(n)
+	if t.Kind() == reflect.Ptr && t.Elem().PkgPath() == planPkg {
+		return t.Elem().Name()
+	}
+	if t.PkgPath() == planPkg {
+		return "val:" + t.Name()
+	}
+	return "ext:" + t.String()
+}
+
+// toVT records what the validators can see of a node.  The children are found with the engine's own walk
+// (transform.InspectWithOpaque with a callback that accepts the node itself and refuses everything else).
+func toVT(ctx *sql.Context, n sql.Node, depth int) *vtT {
+	t := &vtT{Kind: vKind(n)}
+	switch x := n.(type) {
+	case *plan.ResolvedTable:
+		if tt, ok := x.Table.(sql.TemporaryTable); ok {
+			t.Temp = tt.IsTemporary()
+		}
+		t.RO = roClass(x.SqlDatabase)
+	case *plan.CreateTable:
+		t.Temp = x.Temporary()
+		t.RO = roClass(x.Database())
+	case *plan.InsertInto:
+		if x.Destination != nil && depth < 80 {
+			t.Dest = []*vtT{toVT(ctx, x.Destination, depth+1)}
+		}
+	}
+	if depth >= 80 {
+		return t
+	}
+	first := true
+	var kids []sql.Node
+	transform.InspectWithOpaque(ctx, n, func(_ *sql.Context, c sql.Node) bool {
+		if first {
+			first = false
+			return true
+		}
+		kids = append(kids, c)
+		return false
+	})
+	for _, c := range kids {
+		if c == nil || (reflect.ValueOf(c).Kind() == reflect.Ptr && reflect.ValueOf(c).IsNil()) {
+			t.Kids = append(t.Kids, &vtT{Kind: "nil"})
+			continue
+		}
+		t.Kids = append(t.Kids, toVT(ctx, c, depth+1))
+	}
+	return t
+}
+
+func (t *vtT) coq() string {
+	sub := func(l []*vtT) string {
+		var xs []string
+		for _, c := range l {
+			xs = append(xs, c.coq())
+		}
+		return lib.CoqList(xs)
+	}
+	return "(V " + coqString(t.Kind) + " " + lib.CoqBool(t.Temp) + " " + fmt.Sprint(t.RO) + " " + sub(t.Dest) + " " + sub(t.Kids) + ")"
+}
+
+type vcallT struct {
+	Which   string `json:"which"` // txn | db
+	HasTxn  bool   `json:"has_txn"`
+	TxnRO   bool   `json:"txn_ro"`
+	Enforce bool   `json:"enforce"`
+	Res     int    `json:"res"` // 0 accepted, 1 ErrReadOnlyTransaction, 2 ErrReadOnlyDatabase, 3 ErrProcedureCallAsOfReadOnly, 9 other
+	Recon   bool   `json:"reconstructed,omitempty"`
+	Root    string `json:"root"`
+	term    string
+}
+
+func errCode(err error) int {
+	switch {
+	case err == nil:
+		return 0
+	case sql.ErrReadOnlyTransaction.Is(err) || strings.Contains(err.Error(), "in a READ ONLY transaction"):
+		return 1
+	case analyzererrors.ErrReadOnlyDatabase.Is(err) || strings.HasSuffix(err.Error(), " is read-only."):
+		return 2
+	case sql.ErrProcedureCallAsOfReadOnly.Is(err):
+		return 3
+	}
+	return 9
+}
+
+// recording collects the validator invocations of the statement under test (nil = do not record).
+var recording *[]vcallT
+
+var origValidate = map[string]analyzer.RuleFunc{}
+
+func record(which string, ctx *sql.Context, n sql.Node, scope *plan.Scope, err error, recon bool) {
+	if recording == nil || n == nil {
+		return
+	}
+	func() {
+		defer func() { recover() }()
+		c := vcallT{Which: which, Enforce: scope.EnforcesReadOnly(), Res: errCode(err), Recon: recon}
+		if t := ctx.GetTransaction(); t != nil {
+			c.HasTxn = true
+			c.TxnRO = t.IsReadOnly()
+		}
+		vt := toVT(ctx, n, 0)
+		c.Root = vt.Kind
+		w := "VDb"
+		if which == "txn" {
+			w = "VTxn"
+		}
+		c.term = lib.CoqTuple(w, lib.CoqTuple(lib.CoqBool(c.HasTxn), lib.CoqBool(c.TxnRO), lib.CoqBool(c.Enforce)), vt.coq(), fmt.Sprint(c.Res))
+		for _, o := range *recording {
+			if o.term == c.term {
+				return
+			}
+		}
+		if len(*recording) >= 24 && c.Res == 0 {
+			return
+		}
+		*recording = append(*recording, c)
+	}()
+}
+
+// installRecorders replaces, in the package-level rule list every analyzer is built from, the two validators by
+// wrappers that call the original and record (input, context, verdict).  Must run before any engine is built.
+func installRecorders() {
+	for i := range analyzer.OnceBeforeDefault {
+		r := analyzer.OnceBeforeDefault[i]
+		name := r.Id.String()
+		var which string
+		switch name {
+		case "validateReadOnlyTransaction":
+			which = "txn"
+		case "validateReadOnlyDatabase":
+			which = "db"
+		default:
+			continue
+		}
+		orig := r.Apply
+		origValidate[which] = orig
+		w := which
+		analyzer.OnceBeforeDefault[i].Apply = func(ctx *sql.Context, a *analyzer.Analyzer, n sql.Node, scope *plan.Scope, sel analyzer.RuleSelector, qf *sql.QueryFlags) (sql.Node, transform.TreeIdentity, error) {
+			out, same, err := orig(ctx, a, n, scope, sel, qf)
+			record(w, ctx, n, scope, err, false)
+			return out, same, err
+		}
+	}
+	if len(origValidate) != 2 {
+		fmt.Fprintln(os.Stderr, "the read-only validators are not in analyzer.OnceBeforeDefault any more")
+		os.Exit(3)
+	}
+}
+
+// reconstructShortcut: literal INSERT, single-table UPDATE and DELETE are analyzed with the rule batches of
+// analyzer.getBatchesForNode, which refer to the validators directly (no wrapper).  Their input is rebuilt with the
+// engine's own pieces: the statement is bound as Engine.Query binds it, getBatchesForNode chooses the batches, the rules
+// listed before validateReadOnlyDatabase are applied, and the two validators are called on the result.
+func reconstructShortcut(e *eng.E, s *eng.S, query string) {
+	if recording == nil {
+		return
+	}
+	defer func() { recover() }()
+	ctx := sql.NewContext(context.Background(), sql.WithSession(s.Ctx.Session))
+	ctx.SetCurrentDatabase(s.Ctx.GetCurrentDatabase())
+	a := e.Engine.Analyzer
+	binder := planbuilder.New(ctx, a.Catalog, e.Engine.EventScheduler)
+	bound, _, _, qFlags, err := binder.Parse(query, nil, false)
+	if err != nil || bound == nil {
+		return
+	}
+	// Engine.bindQuery: EXECUTE is replaced by the prepared statement, bound with the USING values (bindExecuteQueryNode)
+	if eq, isExec := bound.(*plan.ExecuteQuery); isExec {
+		prep, found := ctx.Session.GetPreparedQuery(eq.Name)
+		if !found {
+			return
+		}
+		tmp := map[string]sql.Expression{}
+		for i, name := range eq.BindVars {
+			if strings.HasPrefix(name.String(), "@") {
+				t, val, err := ctx.GetUserVariable(ctx, strings.TrimPrefix(name.String(), "@"))
+				if err != nil {
+					return
+				}
+				if t == nil {
+					t = types.Null
+				}
+				if val != nil {
+					if val, _, err = t.Promote().Convert(ctx, val); err != nil {
+						return
+					}
+				}
+				tmp[fmt.Sprintf("v%d", i+1)] = expression.NewLiteral(val, t)
+			} else {
+				tmp[fmt.Sprintf("v%d", i)] = name
+			}
+		}
+		if len(tmp) != 0 {
+			binder.SetBindingsWithExpr(tmp)
+		}
+		if bound, _, err = binder.BindOnly(prep, query, nil); err != nil || bound == nil {
+			return
+		}
+	}
+	// Analyzer.Analyze: EXPLAIN analyzes the explained statement on its own
+	if dq, isDescribe := bound.(*plan.DescribeQuery); isDescribe {
+		bound = dq.Query()
+	}
+	batches, ok := analyzer.VerifC42GetBatchesForNode(nil, bound, qFlags)
+	if !ok || batches == nil {
+		return
+	}
+	n := bound
+	for _, b := range batches {
+		for _, rule := range b.Rules {
+			if rule.Id.String() == "validateReadOnlyDatabase" {
+				_, _, e1 := origValidate["db"](ctx, a, n, nil, analyzer.DefaultRuleSelector, qFlags)
+				record("db", ctx, n, nil, e1, true)
+				_, _, e2 := origValidate["txn"](ctx, a, n, nil, analyzer.DefaultRuleSelector, qFlags)
+				record("txn", ctx, n, nil, e2, true)
+				return
+			}
+			next, _, err := rule.Apply(ctx, a, n, nil, analyzer.DefaultRuleSelector, qFlags)
+			if err != nil {
+				return
+			}
+			n = next
+		}
+	}
+}
+
+func callsCoq(cs []vcallT) string {
+	var xs []string
+	for _, c := range cs {
+		xs = append(xs, c.term)
+	}
+	return lib.CoqList(xs)
 }
 
 // ---------- database under test ----------
@@ -665,6 +930,8 @@ type outcome struct {
 	Rows    string `json:"rows,omitempty"`
 	Changed bool   `json:"changed"`
 	Panic   string `json:"panic,omitempty"`
+	VCode   int      `json:"vcode,omitempty"` // errCode of the statement's error
+	Calls   []vcallT `json:"validator_calls,omitempty"`
 }
 
 type caseT struct {
@@ -755,8 +1022,16 @@ func runMode(st stmtT, mode string) (outcome, *treeT, string, bool) {
 			panic("start transaction read only failed: " + r.Err.Error())
 		}
 	}
+	var calls []vcallT
+	if mode == "rw" || mode == "txn" || mode == "rodb" {
+		recording = &calls
+		reconstructShortcut(e, s, st.SQL)
+	}
 	r := s.Query(st.SQL)
+	recording = nil
 	var o outcome
+	o.Calls = calls
+	o.VCode = errCode(r.Err)
 	if r.Err != nil {
 		o.Err = r.Err.Error()
 		if len(o.Err) > 200 {
@@ -877,7 +1152,19 @@ func run(c *lib.Ctx, st stmtT) {
 		c.Count("analysis-failed")
 	}
 	engRejected := cs.Outcomes["engine"].Kind == "read-only"
-	term := lib.CoqTuple(treeTerm, obs, lib.CoqBool(rw.Changed && rw.Err == ""), lib.CoqBool(engRejected), lib.CoqBool(cs.Outcomes["engine"].Err == ""))
+	vinfo := lib.CoqTuple(callsCoq(rw.Calls),
+		lib.CoqTuple(fmt.Sprint(cs.Outcomes["txn"].VCode), callsCoq(cs.Outcomes["txn"].Calls)),
+		lib.CoqTuple(fmt.Sprint(cs.Outcomes["rodb"].VCode), callsCoq(cs.Outcomes["rodb"].Calls)))
+	for _, m := range []string{"rw", "txn", "rodb"} {
+		for _, vc := range cs.Outcomes[m].Calls {
+			k := "shortcut"
+			if !vc.Recon {
+				k = "rule"
+			}
+			c.Count(fmt.Sprintf("validator:%s/%s/%s/%s/res=%d", m, vc.Which, k, vc.Root, vc.Res))
+		}
+	}
+	term := lib.CoqTuple(treeTerm, obs, lib.CoqBool(rw.Changed && rw.Err == ""), lib.CoqBool(engRejected), lib.CoqBool(cs.Outcomes["engine"].Err == ""), vinfo)
 	id := c.Case(term, cs, key)
 
 	// ---- predicate on the implementation alone
@@ -972,9 +1259,10 @@ func run(c *lib.Ctx, st stmtT) {
 func main() {
 	lib.Main("C42", func(c *lib.Ctx) {
 		loadTable()
+		installRecorders()
 		logrus.SetOutput(io.Discard)
 		defineNames()
-		c.Header = "From Coq Require Import List String NArith.\nImport ListNotations.\nFrom GMS Require Import Plan.ReadOnly Corr.C42.\nOpen Scope string_scope.\n" +
+		c.Header = "From Coq Require Import List String NArith.\nImport ListNotations.\nFrom GMS Require Import Plan.ReadOnly Plan.C42Validators Corr.C42.\nOpen Scope string_scope.\n" +
 			nameDefs.String() + "Open Scope N_scope."
 		c.CaseType = "C42.case"
 		c.MismatchFn = "C42.mismatches"
